@@ -293,7 +293,9 @@ func c11Run(c *harness.Check, cs callCase) string {
 
 // ---------------------------------------------------------------- value pools
 
-var c11Strings = []string{"", "a", "abc", "Hello World", "héllo", "日本語", "éa", "ÀB", "  x  ", "\tpad\n", "a,b,,c", "x y z", "12", "-5", "007", "0", "aXbXc", "ß", "a😀b", "abcabc", "-", "+", "--", "-x", ".", "ırmak", "ſtraße", "ɐbc", "ɑé", "ɡ", "ⱥx", "ǆemal", "ßa", "ŉo"}
+var c11Strings = []string{"", "a", "abc", "Hello World", "héllo", "日本語", "éa", "ÀB", "  x  ", "\tpad\n", "a,b,,c", "x y z", "12", "-5", "007", "0", "aXbXc", "ß", "a😀b", "abcabc", "-", "+", "--", "-x", ".", "ırmak", "ſtraße", "ɐbc", "ɑé", "ɡ", "ⱥx", "ǆemal", "ßa", "ŉo",
+	// blanks other than space, tab, LF and CR at the ends: only those four are trimmed by default
+	"\u00a0core\u00a0", "\vx\f", "\u2003em\u3000", "\u0085n", " \u00a0 x \u2028"}
 
 func c11StrArgs() []V {
 	return []V{refint.StrV(""), refint.StrV(" "), refint.StrV(","), refint.StrV("a"), refint.StrV("X"), refint.StrV("é"), refint.StrV("..."), refint.StrV("ab"), refint.StrV("日")}
